@@ -49,7 +49,7 @@ function planPerms (ctx) {
   const rec = (pref) => { if (pref.length) all.push(pref.slice()); if (pref.length === maxLen) return; for (let i = 0; i < n; i++) if (!pref.includes(i)) { pref.push(i); rec(pref); pref.pop() } }
   rec([])
   // longer permutations sampled
-  const extra = ctx.tier === 'thorough' ? 6000 : 500
+  const extra = ctx.tier === 'thorough' ? 20000 : 3000
   for (let k = 0; k < extra; k++) all.push(rng.shuffle(Array.from({ length: n }, (_, i) => i)).slice(0, rng.range(3, 7)))
   return all
 }
@@ -96,7 +96,7 @@ module.exports = {
   plan (ctx) {
     const perms = planPerms(ctx)
     const shards = chunk(perms, 400).map((c, i) => ({ kind: 'perms', perms: c, stream: i }))
-    for (const s of structPlan(ctx, { quickCorpus: 60, exec: { quickRandom: 300, quickFormsPerPlacement: 2 } })) shards.push(s)
+    for (const s of structPlan(ctx, { quickCorpus: 250, exec: { quickRandom: 1500, quickFormsPerPlacement: 6 } })) shards.push(s)
     return shards
   },
   minEvaluations () { return 300 },
